@@ -95,6 +95,8 @@ var (
 	ErrVoteHeightMismatch       = errors.New("Error vote height mismatch")
 )
 
+var ErrInvalidProposalPartsHeader = errors.New("Error invalid proposal block parts header")
+
 //-----------------------------------------------------------------------------
 // RoundStepType enum type
 
@@ -1373,6 +1375,11 @@ func (cs *ConsensusState) defaultSetProposal(proposal *types.Proposal) error {
 	// Verify signature
 	if !cs.Validators.Proposer().PubKey.VerifyBytes(types.SignBytes(cs.state.ChainID, proposal), proposal.Signature) {
 		return ErrInvalidProposalSignature
+	}
+
+	// A part set cannot have a negative number of parts, nor more parts than a block has bytes.
+	if proposal.BlockPartsHeader.Total < 0 || proposal.BlockPartsHeader.Total > types.MaxBlockSize {
+		return ErrInvalidProposalPartsHeader
 	}
 
 	cs.Proposal = proposal
